@@ -339,6 +339,8 @@ pub enum Native {
     U64(u64),
     Bool(bool),
     F64(f64),
+    /// single precision: must come back as its own shortest decimal form (3.14), not as the widened double (3.140000104904175)
+    F32(f32),
     Unit,
     OptNone,
     OptSome(i32),
@@ -378,6 +380,7 @@ impl<'a> Serialize for NativeSer<'a> {
             Native::U64(x) => x.serialize(s),
             Native::Bool(x) => x.serialize(s),
             Native::F64(x) => x.serialize(s),
+            Native::F32(x) => x.serialize(s),
             Native::Unit => ().serialize(s),
             Native::OptNone => Option::<i32>::None.serialize(s),
             Native::OptSome(x) => Some(*x).serialize(s),
@@ -409,6 +412,7 @@ pub fn native_value(n: &Native) -> Value {
         Native::U64(x) => json!(x),
         Native::Bool(x) => json!(x),
         Native::F64(x) => json!(x),
+        Native::F32(x) => format!("{}", x).parse::<f64>().ok().and_then(serde_json::Number::from_f64).map(Value::Number).unwrap_or(Value::Null),
         Native::Unit => Value::Null,
         Native::OptNone => Value::Null,
         Native::OptSome(x) => json!(x),
@@ -528,6 +532,9 @@ pub struct ParserCfg {
     /// call set_implicit_assertion BEFORE set_footer (the setters must commute)
     #[serde(default)]
     pub assertion_first: bool,
+    /// register the validators BEFORE the expected claims (check_claim after validate_claim on the same key: both apply)
+    #[serde(default)]
+    pub validators_first: bool,
 }
 
 /// collects boxed claims for extend_check_claims
@@ -816,29 +823,35 @@ macro_rules! impl_proto {
                 if !cfg.assertion_first {
                     ia_builder!($assert, p, cfg.assertion.as_deref());
                 }
-                if cfg.expected_via_extend {
-                    let mut m: std::collections::HashMap<String, Box<dyn erased_serde::Serialize + 'a>> = std::collections::HashMap::new();
-                    {
-                        let mut sink = ExtendSink(&mut m);
-                        for c in &cfg.expected {
-                            check_claim_on!(sink, c, push)?;
-                        }
-                    }
-                    p.extend_check_claims(m);
-                } else {
-                    for c in &cfg.expected {
-                        check_claim_on!(p, c, check_claim)?;
-                    }
-                }
                 let mut ext: ValidatorMap = std::collections::HashMap::new();
-                for v in &cfg.validators {
-                    match v.reg {
-                        VReg::ValidateClaim => {
-                            check_claim_on!(p, &v.claim, validate_claim, &HV)?;
+                for phase in 0..2 {
+                    let expectations_now = (phase == 0) != cfg.validators_first;
+                    if expectations_now {
+                    if cfg.expected_via_extend {
+                        let mut m: std::collections::HashMap<String, Box<dyn erased_serde::Serialize + 'a>> = std::collections::HashMap::new();
+                        {
+                            let mut sink = ExtendSink(&mut m);
+                            for c in &cfg.expected {
+                                check_claim_on!(sink, c, push)?;
+                            }
                         }
-                        VReg::ExtendOnly => {
-                            ext.insert(v.claim.key().to_string(), Box::new(HV));
+                        p.extend_check_claims(m);
+                    } else {
+                        for c in &cfg.expected {
+                            check_claim_on!(p, c, check_claim)?;
                         }
+                    }
+                    } else {
+                    for v in &cfg.validators {
+                        match v.reg {
+                            VReg::ValidateClaim => {
+                                check_claim_on!(p, &v.claim, validate_claim, &HV)?;
+                            }
+                            VReg::ExtendOnly => {
+                                ext.insert(v.claim.key().to_string(), Box::new(HV));
+                            }
+                        }
+                    }
                     }
                 }
                 if !ext.is_empty() {
@@ -857,40 +870,46 @@ macro_rules! impl_proto {
                 if !cfg.assertion_first {
                     ia_builder!($assert, p, cfg.assertion.as_deref());
                 }
-                for c in &cfg.expected {
-                    // PasetoParser::check_claim wants 'static claims: give it owned ones
-                    match c {
-                        Claim::Custom(k, v) => {
-                            p.check_claim(CustomClaim::try_from((k.clone(), v.clone()))?);
-                        }
-                        Claim::Native(k, n) => {
-                            p.check_claim(CustomClaim::try_from((k.clone(), native_value(n)))?);
-                        }
-                        Claim::Exp(s) => {
-                            p.check_claim(ExpirationClaim::try_from(s.as_str())?);
-                        }
-                        Claim::Nbf(s) => {
-                            p.check_claim(NotBeforeClaim::try_from(s.as_str())?);
-                        }
-                        Claim::Iat(s) => {
-                            p.check_claim(IssuedAtClaim::try_from(s.as_str())?);
-                        }
-                        Claim::Iss(s) => {
-                            p.check_claim(IssuerClaim::from(leak(s)));
-                        }
-                        Claim::Sub(s) => {
-                            p.check_claim(SubjectClaim::from(leak(s)));
-                        }
-                        Claim::Aud(s) => {
-                            p.check_claim(AudienceClaim::from(leak(s)));
-                        }
-                        Claim::Jti(s) => {
-                            p.check_claim(TokenIdentifierClaim::from(leak(s)));
+                for phase in 0..2 {
+                    let expectations_now = (phase == 0) != cfg.validators_first;
+                    if expectations_now {
+                    for c in &cfg.expected {
+                        // PasetoParser::check_claim wants 'static claims: give it owned ones
+                        match c {
+                            Claim::Custom(k, v) => {
+                                p.check_claim(CustomClaim::try_from((k.clone(), v.clone()))?);
+                            }
+                            Claim::Native(k, n) => {
+                                p.check_claim(CustomClaim::try_from((k.clone(), native_value(n)))?);
+                            }
+                            Claim::Exp(s) => {
+                                p.check_claim(ExpirationClaim::try_from(s.as_str())?);
+                            }
+                            Claim::Nbf(s) => {
+                                p.check_claim(NotBeforeClaim::try_from(s.as_str())?);
+                            }
+                            Claim::Iat(s) => {
+                                p.check_claim(IssuedAtClaim::try_from(s.as_str())?);
+                            }
+                            Claim::Iss(s) => {
+                                p.check_claim(IssuerClaim::from(leak(s)));
+                            }
+                            Claim::Sub(s) => {
+                                p.check_claim(SubjectClaim::from(leak(s)));
+                            }
+                            Claim::Aud(s) => {
+                                p.check_claim(AudienceClaim::from(leak(s)));
+                            }
+                            Claim::Jti(s) => {
+                                p.check_claim(TokenIdentifierClaim::from(leak(s)));
+                            }
                         }
                     }
-                }
-                for v in &cfg.validators {
-                    check_claim_on!(p, &v.claim, validate_claim, &HV)?;
+                    } else {
+                    for v in &cfg.validators {
+                        check_claim_on!(p, &v.claim, validate_claim, &HV)?;
+                    }
+                    }
                 }
                 Ok(())
             }
